@@ -59,7 +59,8 @@ def run(ctx):
         go_one = lrcommon.run_impl(r, one)
         go_fresh = lrcommon.run_impl(r, fresh)
         mo = lrcommon.run_model(ctx, r, one, fuel=3000)
-        for h, a, b, m in zip(hists, go_one, go_fresh, mo):
+        mobj = lrcommon.run_model(ctx, r, one, fuel=3000, mode="parseobj")   # the object model, threaded through the history
+        for h, a, b, m, mob in zip(hists, go_one, go_fresh, mo, mobj):
             total += 1
             sa = [c02.norm(x.strip()) for x in a.split(" ; ")]
             sb = [c02.norm(x.strip()) for x in b.split(" ; ")]
@@ -77,10 +78,12 @@ def run(ctx):
                                    "failing_calls": [f for (s, f, _) in h], "segment": k, "used_object": sa[k] if k < len(sa) else a,
                                    "fresh_object": sb[k] if k < len(sb) else b})
                     reported += 1
-            elif sa != sm:
+            elif sa != sm or sa != [c02.norm(x.strip()) for x in mob.split(" ; ")]:
+                if sa == sm:
+                    m = "LR/ObjParse.v (object model): " + mob
                 disagreements += 1
                 if reported < 3:
-                    ctx.violation({"kind": "correspondence-broken", "correspondence": "Parse on a used object vs LR/Parse.v",
+                    ctx.violation({"kind": "correspondence-broken", "correspondence": "Parse on a used object vs LR/Parse.v and vs the object model LR/ObjParse.v (k_parse threaded)",
                                    "grammar": r.text, "history": [s for (s, f, _) in h], "go": a, "model": m}, found_input=False)
                     reported += 1
         if len(samples) < 2:
